@@ -1,0 +1,87 @@
+//! C19 adapter: every decoder that consumes bytes chosen by a remote peer, behind one line protocol.
+//!
+//! `pb <schema> <hex>`      prost-generated decoder of a schema (kad | identify | bitswap | noise | key)
+//! `kad <hex> <repl>`       `KademliaMessage::from_bytes`
+//! `key <hex>`              `RemotePublicKey::from_protobuf_encoding`
+//! `enc <kind> …`           the library's own Kademlia encoders (returns `ok <hex>`)
+//! `rt <kind> …`            encode with the library's encoder, then `KademliaMessage::from_bytes`
+//! Every answer ends with ` alloc=<peak bytes allocated while decoding>` when the harness installed
+//! its counting allocator.
+
+use crate::verif::{alloc_begin, alloc_peak_since, hex, unhex, VerifBox};
+
+use prost::Message;
+
+pub struct DecoderBox;
+
+impl DecoderBox {
+    pub fn new() -> Self {
+        Self
+    }
+}
+
+fn key_pb(bytes: &[u8]) -> String {
+    match crate::crypto::keys_proto::PublicKey::decode(bytes) {
+        Err(_) => "err".into(),
+        Ok(k) => format!("ok type={} data={}", k.r#type, crate::verif::hexd(&k.data)),
+    }
+}
+
+fn remote_key(bytes: &[u8]) -> String {
+    use crate::error::ParseError;
+    match crate::crypto::RemotePublicKey::from_protobuf_encoding(bytes) {
+        Ok(crate::crypto::RemotePublicKey::Ed25519(k)) => format!("ok {}", hex(&k.to_bytes())),
+        Err(ParseError::ProstDecodeError(_)) => "err decode".into(),
+        Err(ParseError::UnknownKeyType(_)) => "err keytype".into(),
+        Err(ParseError::InvalidPublicKey) => "err invalid".into(),
+        Err(_) => "err other".into(),
+    }
+}
+
+impl VerifBox for DecoderBox {
+    fn step(&mut self, line: &str) -> String {
+        let t: Vec<&str> = line.split_whitespace().collect();
+        let input = |h: &str| if h == "-" { Vec::new() } else { unhex(h) };
+        match t.as_slice() {
+            ["pb", schema, h] => {
+                let bytes = input(h);
+                let base = alloc_begin();
+                let out = match *schema {
+                    "kad" => crate::protocol::libp2p::kademlia::verif_c19::pb(&bytes),
+                    "identify" => crate::protocol::libp2p::identify::verif_c19::pb(&bytes),
+                    "bitswap" => crate::protocol::libp2p::bitswap::verif_c19::pb(&bytes),
+                    "noise" => crate::crypto::noise::verif_c19::pb(&bytes),
+                    "key" => key_pb(&bytes),
+                    _ => return "bad-op".into(),
+                };
+                format!("{} alloc={}", out, alloc_peak_since(base))
+            }
+            ["kad", h, repl] => {
+                let bytes = input(h);
+                let repl: usize = repl.parse().expect("replication factor");
+                let base = alloc_begin();
+                let out = crate::protocol::libp2p::kademlia::verif_c19::from_bytes(&bytes, repl);
+                format!("{} alloc={}", out, alloc_peak_since(base))
+            }
+            ["key", h] => {
+                let bytes = input(h);
+                let base = alloc_begin();
+                let out = remote_key(&bytes);
+                format!("{} alloc={}", out, alloc_peak_since(base))
+            }
+            ["rt", rest @ ..] => match crate::protocol::libp2p::kademlia::verif_c19::encode(rest) {
+                Some(b) => format!(
+                    "ok {} => {}",
+                    hex(&b),
+                    crate::protocol::libp2p::kademlia::verif_c19::from_bytes(&b, 20)
+                ),
+                None => "bad-op".into(),
+            },
+            ["enc", rest @ ..] => match crate::protocol::libp2p::kademlia::verif_c19::encode(rest) {
+                Some(b) => format!("ok {}", hex(&b)),
+                None => "bad-op".into(),
+            },
+            _ => "bad-op".into(),
+        }
+    }
+}
